@@ -122,6 +122,130 @@ def register(op):
         fresh()
         return r
 
+    @op("c02_history")
+    def _(a):
+        """several complexes side by side.  pool[c] = the rotations [[seq, struct], ...] of complex c (pairwise inequivalent);
+        steps: ["new", c, r, name|None]      request rotation r of complex c (explicit name, or none = automatic name)
+               ["scribble", c, how]           a caller edits, in place, every list the public API handed out for the object of
+                                              c (ComplexS.rotate(), rotate_complex_once, rotate_complex_db): they are the caller's
+               ["turn", c, t]                 obj.turns = t
+               ["drop", c]                    the last reference to the object of c goes away
+        Each step answers with what can be observed; the expectations are computed by the harness (props/c02.py)."""
+        from dsdobjects import complex_utils as cu_
+        pool, steps = a[0], a[1]
+        use_sub = a[2] if len(a) > 2 else False
+        fresh()
+        class SubH(bc.ComplexS):
+            pass
+        K = SubH if use_sub else bc.ComplexS
+        held, extra, out = {}, [], []
+
+        def who(c_):
+            for j_, o_ in held.items():
+                if o_ is c_:
+                    return j_
+            for j_, o_ in enumerate(extra):
+                if o_ is c_:
+                    return -2 - j_
+            return None
+
+        def obs(o_):
+            return [ckey(o_), o_.turns, names(o_.sequence), list(o_.structure), o_.name]
+
+        def scribble(s_, t_, how):
+            if how == "open":
+                for i_, x_ in enumerate(t_):
+                    if x_ != "+":
+                        t_[i_] = "."
+            elif how == "unpair":
+                depth = 0
+                for i_, x_ in enumerate(t_):
+                    if x_ == "(":
+                        if depth == 0:
+                            t_[i_] = "."
+                        depth += 1
+                    elif x_ == ")":
+                        depth -= 1
+                        if depth == 0:
+                            t_[i_] = "."
+                            break
+            elif how == "reverse":
+                s_.reverse()
+                t_[:] = [{"(": ")", ")": "("}.get(x_, x_) for x_ in reversed(t_)]
+            elif how == "clear":
+                del s_[:]
+                del t_[:]
+            elif how == "rename":
+                for i_, x_ in enumerate(s_):
+                    if x_ != "+":
+                        s_[i_] = "zz"
+
+        for k, st in enumerate(steps):
+            what, ci = st[0], st[1]
+            c = None
+            try:
+                if what == "new":
+                    seq, struct = pool[ci][st[2]]
+                    name = st[3]
+                    try:
+                        c = K(doms(seq), list(struct), name=name) if name is not None else K(doms(seq), list(struct))
+                        kind = "object"
+                    except SingletonError as e:
+                        c = e.existing
+                        kind = "refused-existing" if c is not None else "refused-none"
+                    if c is None:
+                        out.append([kind, None, None])
+                    else:
+                        w = who(c)
+                        if w is None:
+                            if ci in held:
+                                extra.append(c)
+                                w = -1 - len(extra)
+                            else:
+                                held[ci] = c
+                                w = ci
+                            kind = "created" if kind == "object" else kind
+                        out.append([kind, w, obs(c)])
+                elif ci not in held:
+                    out.append(["absent", None, None])
+                elif what == "scribble":
+                    o = held[ci]
+                    got = [list(p_) for p_ in o.rotate()]
+                    got.append(list(cu_.rotate_complex_once(list(o.sequence), list(o.structure))))
+                    got.append(list(cu_.rotate_complex_once(names(o.sequence), list(o.structure))))
+                    got += [list(p_) for p_ in cu_.rotate_complex_db(names(o.sequence), list(o.structure))]
+                    for s_, t_ in got:
+                        if isinstance(s_, list) and isinstance(t_, list):
+                            scribble(s_, t_, st[2])
+                    del got
+                    out.append(["scribbled", ci, obs(o)])
+                    o = None
+                elif what == "turn":
+                    held[ci].turns = st[2]
+                    out.append(["turned", ci, obs(held[ci])])
+                elif what == "drop":
+                    del held[ci]
+                    gc.collect()
+                    out.append(["dropped", ci, None])
+                else:
+                    raise KeyError(what)
+            except Exception as e:
+                out.append(["raised", type(e).__name__, None])
+            c = None
+        # equality and hash among the objects alive at the end
+        pairs = []
+        objs = sorted(held.items()) + [(-2 - j_, o_) for j_, o_ in enumerate(extra)]
+        for i_, (ja, oa) in enumerate(objs):
+            for jb, ob in objs[i_ + 1:]:
+                pairs.append([ja, jb, oa == ob, oa != ob, hash(oa) == hash(ob)])
+        final = [[j_, obs(o_)] for j_, o_ in objs]
+        del objs
+        held.clear()
+        del extra[:]
+        clear_singletons(SubH)
+        fresh()
+        return [out, pairs, final]
+
     register_c12(op)
 
     @op("c09_split_twice_witness")
